@@ -79,6 +79,14 @@ def gen_wrap_consts(repo):
     sc_guarded = sc_guarded and not sc_plain
     zwfit = bool(re.search(r"Some\(_\) if stack\.iter\(\)\.all\(\|\(_, text\)\| text\.width\(\) == 0\) => \{\s*"
                            r"curr_line\.push_and_set_len\(\(style, text\), new_len\);\s*false\s*\}", body))
+    # the option check: one grapheme AND one column (notes/fix-wrap-wide-symbol.diff)
+    m = _need(re.search(r"fn ensure_display_width_1\(.*?\n}\n", wr, re.S), "ensure_display_width_1 body")
+    ebody = m.group(0)
+    sym_checked = bool(re.search(r"let width = match arg\.grapheme_indices\(true\)\.count\(\) \{\s*INLINE_SYMBOL_WIDTH_1 => arg\.width\(\),\s*"
+                                 r"graphemes => graphemes,\s*\};\s*match width \{\s*INLINE_SYMBOL_WIDTH_1 => arg,\s*width => fatal\(", ebody))
+    for what in ("wrap-left-symbol", "wrap-right-symbol", "wrap-right-prefix-symbol"):
+        if not re.search(r'ensure_display_width_1\(\s*"%s",' % what, wr):
+            sym_checked = False
     m = _need(re.search(r"fn truncate_str_impl<.*?\n}\n", ansi, re.S), "truncate_str_impl body")
     tbody = m.group(0)
     tstop = bool(re.search(r"let mut truncated = false;", tbody)) and bool(re.search(r"if truncated \{\s*continue;\s*\}", tbody)) \
@@ -104,6 +112,8 @@ def gen_wrap_consts(repo):
     out += "def wrapStuckStop : Bool := %s\n" % b(stuck_stop)
     out += "def wrapZwShortcut : Bool := %s\n" % b(sc_guarded)
     out += "def wrapZwPerfectFit : Bool := %s\n" % b(zwfit)
+    out += "/-- `WrapConfig::from_opt` passes all three wrap symbols through a check that accepts exactly one grapheme of display width 1 -/\n"
+    out += "def wrapSymbolWidthChecked : Bool := %s\n" % b(sym_checked)
     out += "/-- `truncate_str_impl` stops adding text after the first grapheme that did not fit -/\n"
     out += "def truncStopsAfterCut : Bool := %s\n" % b(tstop)
     out += "\nend Generated\n"
